@@ -417,7 +417,7 @@ from gpmc import interp as _ip
 SUBCHECKS = [
     Sub('formula', gen_formula, ev_formula, chunk=4, floor=1000, guard=True, envs=3),
     Sub('covariance', gen_cov, ev_cov, chunk=2, floor=200, guard=True, envs=2),
-    Sub('threads', _tg, _te, chunk=1, floor=3, poison=False, fresh=True, timeout=3600),
+    Sub('threads', _tg, _te, chunk=1, floor=3, poison=False, fresh=True, timeout=7200),
     Sub('callforms', *_cf.make('C06', 'transform'), chunk=1, floor=1, guard=True),
     Sub('interpreter', *_ip.make('C06', 'transform'), chunk=1, floor=5, poison=False),
 ]
